@@ -151,3 +151,31 @@ def register(claim) -> None:
         "wait and before the call, purge condition entries[0] + period <= now before the fullness test, period normalisation. Obligations C15.1-C15.5.",
         "asyncio.Lock FIFO fairness and asyncio.sleep trusted; decides these clauses, not the timing behaviour.",
     )
+    claim(
+        "C04",
+        "all-paths-raise analysis of the attribute hooks + whole-package raw-write scan + faithful-comprehension shape of the container validators + merge-order domain for copy-on-update",
+        "Decides the structural clauses of immutability: __setattr__/__delattr__ raise on every path, raw attribute writes only in State.__init__, "
+        "container validators return fresh immutable containers built by comprehension (never the caller's object), updated/__replace__/copy/deepcopy "
+        "rebuild through the validating constructor with later-wins merge over all attributes, unknown names ignored, equality guarded by class and "
+        "over all attributes. Obligations C04.1-C04.8; C04.7 (deepcopy of a Mapping attribute) is a recorded known finding.",
+        "Equality being an equivalence for all attribute values is value-level and not decided; attributes annotated Any keep whatever was passed.",
+    )
+    claim(
+        "C05",
+        "faithful-comprehension analysis (K9) of every container validator + scenario-evaluated arity guard + argument-plumbing checks of the annotation resolver",
+        "NARROW CLAIM: 'construction succeeds exactly when each value conforms' is an equivalence over an infinite value space against an independent "
+        "conformance relation; it is not decided. Decided are necessary structural clauses: validate-before-assign, element-wise validation without "
+        "filter/split/re-key (incl. mapping .items()), the fixed-tuple arity guard, union first-match-else-raise, leaf validators returning the value "
+        "itself or raising, get_args applied to annotations not origins, single-argument __class_getitem__, resolver origins covered by VALIDATORS. "
+        "Obligations C05.1-C05.9.",
+        "Decides these clauses, not acceptance <=> conformance.",
+    )
+    claim(
+        "C11",
+        "generator/context-manager effect analysis (transitive sets_contextvar summary) + API-fact check on Context.run + faithful-iteration shape of the wrapper",
+        "Decides that no yield happens under a ContextVar-setting scope in a consumer-driven generator and that the body is driven under the "
+        "creation snapshot (both are violated today and recorded as known findings with the failing scenario), and - armed - that the wrapper "
+        "forwards exactly the source's items, that the stream scope encloses the whole iteration, and that snapshot and nested scope are prepared "
+        "at creation time. Obligations C11.1-C11.5.",
+        "Trusts contextvars / async generator semantics (API_FACT 5).",
+    )
